@@ -69,7 +69,7 @@ def load_file(params):
 # C01 / C02
 # ------------------------------------------------------------------------------------------------
 
-def gen_lift(rng, tier, oracle_name, nfiles_q=220, nfiles_t=4000, zero=False):
+def gen_lift(rng, tier, oracle_name, nfiles_q=220, nfiles_t=12000, zero=False):
     n = nfiles_q if tier == "quick" else nfiles_t
     groups = []
     for k in range(n):
@@ -78,7 +78,34 @@ def gen_lift(rng, tier, oracle_name, nfiles_q=220, nfiles_t=4000, zero=False):
         f, qs = gen_file_and_queries(rng, 24, big=big, zero_blocks=zb)
         fam = ("big" if big else "small") + ("-zero" if zb else "") + "-%dchains" % min(len(f), 4)
         groups.append(group(fam, oracle_name, [build_case(gen.render(f, blanks=rng.choice([0, 1, 1, 2])), qs)], params=file_params(f, qs)))
+    if tier == "thorough":
+        groups += exhaustive_small(oracle_name, zero)
     return groups
+
+
+def exhaustive_small(oracle_name, zero):
+    """small scope, enumerated completely: one chain, all four strand pairs, 1-3 blocks with sizes in {1,2} (and 0 when allowed),
+    gaps in {0,1,2}^2, leading offset 0/1 on each side, x every interval [a,b) with 0<=a<=b<=size+1 on both strands"""
+    import itertools
+    sizes = [0, 1, 2] if zero else [1, 2]
+    out = []
+    for nb in (1, 2, 3):
+        for szs in itertools.product(sizes, repeat=nb):
+            for gaps in itertools.product([(0, 0), (0, 1), (1, 0), (1, 2), (2, 2)], repeat=nb - 1):
+                blocks = [(szs[k],) + gaps[k] for k in range(nb - 1)] + [(szs[-1],)]
+                tlen = sum(b[0] + (b[1] if len(b) == 3 else 0) for b in blocks)
+                qlen = sum(b[0] + (b[2] if len(b) == 3 else 0) for b in blocks)
+                for ts, qs_, t0, q0 in itertools.product("+-", "+-", (0, 1), (0, 1)):
+                    c = dict(score=0, tname="a", tsize=t0 + tlen + 1, tstrand=ts, tstart=t0, tend=t0 + tlen,
+                             qname="b", qsize=q0 + qlen, qstrand=qs_, qstart=q0, qend=q0 + qlen, id=1, blocks=blocks)
+                    size = c["tsize"]
+                    ivs = []
+                    for a in range(size + 2):
+                        for b in range(a, size + 2):
+                            ivs.append(("a", "+", a, b))
+                            ivs.append(("a", "-", b, a))
+                    out.append(group("exhaustive-small", oracle_name, [build_case(gen.render([c]), ivs)], params=file_params([c], ivs)))
+    return out
 
 
 def gen_C01(rng, tier):
@@ -150,7 +177,7 @@ def o_c02(params, cases, outs):
 # ------------------------------------------------------------------------------------------------
 
 def gen_C09(rng, tier):
-    n = 200 if tier == "quick" else 3500
+    n = 200 if tier == "quick" else 10500
     groups = []
     for _ in range(n):
         f = gen.gen_file(rng, big=rng.random() < 0.1, zero_blocks=rng.random() < 0.1)
@@ -224,7 +251,7 @@ def swap_chain(c):
 
 
 def gen_C10(rng, tier):
-    n = 200 if tier == "quick" else 3500
+    n = 200 if tier == "quick" else 10500
     groups = []
     for _ in range(n):
         f = gen.gen_file(rng, big=rng.random() < 0.1)
@@ -264,7 +291,7 @@ def o_c10(params, cases, outs):
 # ------------------------------------------------------------------------------------------------
 
 def gen_C11(rng, tier):
-    n = 150 if tier == "quick" else 2500
+    n = 150 if tier == "quick" else 7500
     groups = []
     for _ in range(n):
         f = gen.gen_file(rng, max_chains=6, big=rng.random() < 0.1)
@@ -328,7 +355,7 @@ def o_c11(params, cases, outs):
 # ------------------------------------------------------------------------------------------------
 
 def gen_C16(rng, tier):
-    n = 200 if tier == "quick" else 3500
+    n = 200 if tier == "quick" else 10500
     groups = []
     for _ in range(n):
         f = gen.gen_file(rng, big=rng.random() < 0.15)
@@ -439,7 +466,7 @@ def corruptions(rng, f, lines, owner):
 
 
 def gen_C03(rng, tier):
-    n = 90 if tier == "quick" else 1500
+    n = 90 if tier == "quick" else 4500
     groups = []
     for _ in range(n):
         f = gen.gen_file(rng, big=rng.random() < 0.1, max_chains=4)
@@ -503,7 +530,7 @@ def mutate_bytes(rng, data):
 
 
 def gen_C06(rng, tier):
-    n = 260 if tier == "quick" else 5000
+    n = 260 if tier == "quick" else 15000
     groups = []
     for _ in range(n):
         r = rng.random()
@@ -559,7 +586,7 @@ def signature_queries(f):
 
 
 def gen_C08(rng, tier):
-    n = 25 if tier == "quick" else 400
+    n = 25 if tier == "quick" else 1200
     groups = []
     for _ in range(n):
         f = gen.gen_file(rng, max_chains=3, zero_blocks=rng.random() < 0.4)
@@ -639,7 +666,7 @@ def norm_blank(o):
 
 
 def gen_C12(rng, tier):
-    n = 110 if tier == "quick" else 2000
+    n = 110 if tier == "quick" else 6000
     groups = []
     for _ in range(n):
         if rng.random() < 0.6:
@@ -809,7 +836,7 @@ def canon_data(line):
 
 
 def gen_C13(rng, tier):
-    n = 900 if tier == "quick" else 20000
+    n = 900 if tier == "quick" else 60000
     groups = []
     for _ in range(n):
         r = rng.random()
@@ -843,7 +870,7 @@ def gen_C13(rng, tier):
             cases.append("pline " + xtok(canon))
         groups.append(group("accepted" if canon is not None else "rejected", "c13_line", cases,
                             params={"canon": canon.hex() if canon is not None else None}, nontrivial=canon is not None))
-    nf = 60 if tier == "quick" else 1000
+    nf = 60 if tier == "quick" else 3000
     for _ in range(nf):
         f = gen.gen_file(rng, big=rng.random() < 0.15)
         qs = gen.gen_intervals(rng, f, 10)
@@ -900,7 +927,7 @@ def o_c13_file(params, cases, outs):
 # ------------------------------------------------------------------------------------------------
 
 def gen_C17(rng, tier):
-    n = 700 if tier == "quick" else 15000
+    n = 700 if tier == "quick" else 45000
     groups = []
     for _ in range(n):
         if rng.random() < 0.6:
@@ -991,7 +1018,7 @@ def o_c17(params, cases, outs):
 # ------------------------------------------------------------------------------------------------
 
 def gen_C18(rng, tier):
-    n = 60 if tier == "quick" else 600
+    n = 60 if tier == "quick" else 1800
     groups = []
     for _ in range(n):
         f = gen.gen_file(rng, max_chains=5)
